@@ -173,6 +173,23 @@ func EnvStubs(st map[string]StubFn) {
 		r.assume(Le(StrLen(v), IntT(asInt64(a[1]))))
 		return v
 	}
+	st[vrtPkg+"Bytes"] = func(r *Run, fr *frame, fn *ssa.Function, a []value) value {
+		name := a[0].(string)
+		max := int(asInt64(a[1]))
+		lv := r.newInput(name+".len", SInt)
+		conds := make([]*Term, max+1)
+		for i := range conds {
+			conds[i] = Eq(lv, IntT(int64(i)))
+		}
+		n := r.decide(conds)
+		cps := make([]*Term, n)
+		for i := range cps {
+			c := r.newInput(fmt.Sprintf("%s[%d]", name, i), SInt)
+			r.assume(And(Le(IntT(1), c), Le(c, IntT(127))))
+			cps[i] = c
+		}
+		return runesV{cps, true}.norm()
+	}
 	st[vrtPkg+"Choose"] = func(r *Run, fr *frame, fn *ssa.Function, a []value) value {
 		// an input-level choice: recorded as a named Int so that models/replays see it
 		k := int(asInt64(a[1]))
